@@ -11,6 +11,7 @@
 #include <vector>
 #include <cstring>
 #include <cstdlib>
+#include <malloc.h>
 
 namespace ex = pika::execution::experimental;
 namespace tt = pika::this_thread::experimental;
@@ -485,7 +486,7 @@ static void p_split_when_all()
 // type-erased senders and the small adaptors: same completion as the plain pipeline
 static void p_erased_small()
 {
-    int ch = pmc_choose(3, 0), def = pmc_choose(2, 0), form = pmc_choose(4, 0);
+    int ch = pmc_choose(3, 0), def = pmc_choose(2, 0), form = pmc_choose(5, 0);
     Frame fr;
     Outcome o;
     {
@@ -496,6 +497,13 @@ static void p_erased_small()
         case 1: consume(ex::drop_value(leaf(ch, def, 10)), o); expect(o, ch, ch == VAL ? 0 : 10, "drop_value(leaf)"); break;
         case 2: consume(ex::drop_operation_state(leaf(ch, def, 10)) | ex::then([](Payload p) { return p; }), o); expect(o, ch, 10, "drop_operation_state(leaf) | then"); break;
         case 3: consume(ex::require_started(leaf(ch, def, 10)), o); expect(o, ch, 10, "require_started(leaf)"); break;
+        case 4:
+            // a predecessor that signals its error by reference into its own operation state (when_all stores
+            // it): drop_operation_state destroys that state before it signals, the error must survive
+            consume(ex::when_all(leaf(ch, def, 10), ex::just(Payload(7))) | ex::drop_operation_state(), o);
+            expect(o, ch, 10, "when_all(leaf, just) | drop_operation_state");
+            if (ch == VAL) PMC_ASSERT(o.tag2 == 7, "wrong-payload", "when_all(leaf, just) | drop_operation_state: second value has tag %d", o.tag2);
+            break;
         }
         stop_completer(c);
     }
@@ -584,6 +592,7 @@ static void p_more()
 #ifndef C03_NO_MAIN
 int main(int argc, char** argv)
 {
+    mallopt(M_PERTURB, 0xA5);    // freed malloc memory (exception objects) is overwritten: a dangling exception_ptr cannot look valid
     static const char* sites = "execution/algorithms|execution_base/(any_sender|operation_state|receiver|sender)|_Sp_counted_base|intrusive_ptr|atomic_count";
     static const char* focus = "F-site: all atomics of the adaptor headers (split/ensure_started shared state: spinlock, predecessor_done, reference count; when_all counters; start_detached), any_sender, reference counts; all pthread operations";
     static const pmc_spec specs[] = {
